@@ -209,12 +209,13 @@ func VerifC18StreamReplay(v *vrt.T) {
 	// Times are concrete (decimal formatting and parsing of a symbolic 19-digit number is
 	// beyond the solver budget): an instant with all nine sub-second digits, the first
 	// nanosecond of the epoch, an instant before 1970; the second point follows after
-	// 1s+1ns, 0 or 1ns.
-	tc := v.Choose("times", 3)
-	t1 := time.Unix(0, []int64{verifC18Base, 1, verifT1960 - 1}[tc]).UTC()
+	// 1s+1ns, 0 or 1ns — or lies 10s BEFORE the first one (a late arrival in a live
+	// recording: recordings are in arrival order, not in time order).
+	tc := v.Choose("times", 4)
+	t1 := time.Unix(0, []int64{verifC18Base, 1, verifT1960 - 1, verifC18Base}[tc]).UTC()
 	sent := []edge.PointMessage{edge.NewPointMessage(name, db, rp, models.Dimensions{}, fields, models.Tags{tagk: tagv}, t1)}
 	if v.Bound("points", 2) > 1 {
-		t2 := t1.Add([]time.Duration{time.Second + 1, 0, 1}[tc])
+		t2 := t1.Add([]time.Duration{time.Second + 1, 0, 1, -10 * time.Second}[tc])
 		sent = append(sent, edge.NewPointMessage("m2", "db2", "rp2", models.Dimensions{}, models.Fields{"g": int64(7)}, nil, t2))
 	}
 
